@@ -156,8 +156,10 @@ def run(ctx):
             problem = "legal moves differ between the played and the reloaded position"
         elif [m[1] for m in na[1]] != [m[1] for m in nbn[1]]:
             problem = "a successor position differs between the played and the reloaded position"
-        elif na[0][1][-1][5:] != nbn[0][1][-1][5:]:
-            problem = "flags/clock/rights of the last undo record differ"
+        elif [na[0][1][-1][5] & 4] + na[0][1][-1][6:] != [nbn[0][1][-1][5] & 4] + nbn[0][1][-1][6:]:
+            # only the double-push flag (which carries the en-passant file), the clock and the rights are
+            # content; castling / en-passant-capture flags of the last PLAYED move are not part of a position
+            problem = "double-push flag / clock / rights of the last undo record differ"
         if problem:
             rp = C.write_replay(prop, {"kind": "reload of a played position", "game": g, "fen": rf, "problem": problem})
             violations.append({"replay": rp})
